@@ -491,3 +491,59 @@ package interpreter
 //@   ensures [never-world] {C10} forallstr(c, !old(pending(st, "world", c)) ==> !pending(st, "world", c))
 //@   ensures [state-ok] varsOk(st) && queryOk(st)
 //@   modifies entries(st.CurrentBalanceQuery), st.CurrentAsset
+
+// ---------------------------------------------------------------- the store (assumption A5) and the balance query
+
+// The store answers from one fixed balance sheet (storeBal).  It may leave out pairs whose balance is zero
+// and may add pairs nobody asked for; the maps it returns belong to the store.
+//@ extern invoke:Store.GetBalances(recv, ctx, query)
+//@   requires [never-world] {C10} !has(query, "world")
+//@   ensures [sheet] err == nil ==> forallstr(a, c, has(result, a) && has(result[a], c) && result[a][c] != nil ==> val(result[a][c]) == storeBal(a, c))
+//@   ensures [store-owned] forallstr(a, has(result, a) ==> external(ref(result[a]))) && forallstr(a, c, has(result, a) && has(result[a], c) ==> external(ref(result[a][c])))
+//@   ensures [asked-or-zero] err == nil ==> forallstr(a, c, has(query, a) && contains(query[a], c) && !(has(result, a) && has(result[a], c) && result[a][c] != nil) ==> storeBal(a, c) == 0)
+
+// everything the cache holds was allocated by this run (after the programState itself): the store never sees it
+// the per-account maps of the cache are the ones it had on entry or were allocated since
+//@ spec innerGrew(st) = forallstr(a, has(st.CachedBalances, a) ==> (old(has(st.CachedBalances, a)) && st.CachedBalances[a] == old(st.CachedBalances[a])) || fresh(ref(st.CachedBalances[a])))
+//@ spec cacheOwned(st) = ref(st.CachedBalances) > ref(st) && forallstr(a, has(st.CachedBalances, a) ==> ref(st.CachedBalances[a]) > ref(st)) && forallstr(a, c, known(st, a, c) ==> ref(st.CachedBalances[a][c]) > ref(st))
+
+//@ func (*programState).runBalancesQuery
+//@   external-below ref(st)
+//@   requires [state] queryOk(st) && cacheOk(st) && cacheOwned(st) && st.Store != nil && !has(st.CurrentBalanceQuery, "world")
+//@   ensures [nothing-forgotten] {C10,C11} cacheGrew(st) && heapsame(bigint)
+//@   ensures [coherent] {C10} forallstr(a, c, known(st, a, c) && !old(known(st, a, c)) ==> val(st.CachedBalances[a][c]) == storeBal(a, c))
+//@   ensures [asks-superset-of-need] {C10} result == nil ==> forallstr(a, c, old(pending(st, a, c)) && !old(known(st, a, c)) ==> known(st, a, c) || storeBal(a, c) == 0)
+//@   ensures [error-leaves-view] {C12} result != nil ==> forallstr(a, c, known(st, a, c) == old(known(st, a, c)))
+//@   ensures [state-ok] queryOk(st) && cacheOk(st) && cacheOwned(st)
+//@   modifies st.CurrentBalanceQuery, entries(st.CachedBalances), innermapsof(st)
+//@   loop 1
+//@     invariant [filtered] {C10} forallstr(a, c, seen(a) && pending(st, a, c) && !known(st, a, c) ==> has(filteredQuery, a) && filteredQuery[a] == st.CurrentBalanceQuery[a])
+//@     invariant [fq] filteredQuery != nil && fresh(ref(filteredQuery)) && forallstr(a, has(filteredQuery, a) ==> has(st.CurrentBalanceQuery, a) && filteredQuery[a] == st.CurrentBalanceQuery[a])
+//@     invariant [cache] cacheOk(st) && cacheOwned(st) && cacheGrew(st) && innerGrew(st) && forallstr(a, c, known(st, a, c) == old(known(st, a, c)))
+//@   loop 2
+//@     invariant [filtered-others] {C10} forallstr(a, c, seen(a) && a != accountName && pending(st, a, c) && !known(st, a, c) ==> has(filteredQuery, a) && filteredQuery[a] == st.CurrentBalanceQuery[a])
+//@     invariant [current] has(st.CurrentBalanceQuery, accountName) && st.CurrentBalanceQuery[accountName] == queriedCurrencies && has(st.CachedBalances, accountName) && st.CachedBalances[accountName] == cachedCurrenciesForAccount
+//@     invariant [inner] {C10} forall(j, 0, iter, !known(st, accountName, queriedCurrencies[j]) ==> has(filteredQuery, accountName) && filteredQuery[accountName] == queriedCurrencies)
+//@     invariant [fq] filteredQuery != nil && fresh(ref(filteredQuery)) && forallstr(a, has(filteredQuery, a) ==> has(st.CurrentBalanceQuery, a) && filteredQuery[a] == st.CurrentBalanceQuery[a])
+//@     invariant [cache] cacheOk(st) && cacheOwned(st) && cacheGrew(st) && innerGrew(st) && forallstr(a, c, known(st, a, c) == old(known(st, a, c)))
+//@   loop 3
+//@     invariant [merged] {C10} forallstr(a, c, seen(a) && has(balances, a) && has(balances[a], c) && balances[a][c] != nil ==> known(st, a, c))
+//@     invariant [coherent] {C10,C11} forallstr(a, c, known(st, a, c) && !old(known(st, a, c)) ==> val(st.CachedBalances[a][c]) == storeBal(a, c))
+//@     invariant [asked] {C10} forallstr(a, c, old(pending(st, a, c)) && !old(known(st, a, c)) ==> (has(balances, a) && has(balances[a], c) && balances[a][c] != nil) || storeBal(a, c) == 0)
+//@     invariant [external] {C11} ref(balances) < ref(st) && forallstr(a, has(balances, a) ==> ref(balances[a]) < ref(st))
+//@     invariant [cache-cells] st != nil && st.CachedBalances != nil && cacheCells(st)
+//@     invariant [cache] cacheOwned(st) && cacheGrew(st) && innerGrew(st) && queryOk(st)
+//@     invariant [cache-maps-distinct] cacheDistinct(st)
+//@     invariant [cache-cells-distinct] cellsDistinct(st)
+//@   loop 4
+//@     invariant [merged-others] {C10} forallstr(a, c, seenOuter(a) && a != account && has(balances, a) && has(balances[a], c) && balances[a][c] != nil ==> known(st, a, c))
+//@     invariant [current] has(balances, account) && balances[account] == accountBalances && has(st.CachedBalances, account) && st.CachedBalances[account] == cached
+//@     invariant [external] {C11} ref(balances) < ref(st) && forallstr(a, has(balances, a) ==> ref(balances[a]) < ref(st)) && ref(accountBalances) < ref(st) && ref(cached) > ref(st)
+//@     invariant [merged-inner] {C10} forallstr(c, seen(c) && has(accountBalances, c) && accountBalances[c] != nil ==> known(st, account, c))
+//@     invariant [coherent] {C10,C11} forallstr(a, c, known(st, a, c) && !old(known(st, a, c)) ==> val(st.CachedBalances[a][c]) == storeBal(a, c))
+//@     invariant [asked] {C10} forallstr(a, c, old(pending(st, a, c)) && !old(known(st, a, c)) ==> (has(balances, a) && has(balances[a], c) && balances[a][c] != nil) || storeBal(a, c) == 0)
+//@     invariant [cache-cells] st != nil && st.CachedBalances != nil && cacheCells(st)
+//@     invariant [cache] cacheOwned(st) && cacheGrew(st) && innerGrew(st) && queryOk(st)
+//@     invariant [step-grew] forallstr(a, c, atouter(known(st, a, c)) ==> known(st, a, c) && st.CachedBalances[a][c] == atouter(st.CachedBalances[a][c])) && forallstr(a, c, known(st, a, c) && !atouter(known(st, a, c)) ==> a == account && atouter(allocated(ref(st))) && !atouter(allocated(ref(st.CachedBalances[a][c]))))
+//@     invariant [cache-maps-distinct] cacheDistinct(st)
+//@     invariant [cache-cells-distinct] cellsDistinct(st)
